@@ -415,6 +415,10 @@ def run(ctx: Ctx) -> None:
     rule_listeners(ctx)
     rule_awaited_release(ctx)
     rule_sockets(ctx)
+    from .c09 import rule_transports_stored
+    rule_transports_stored(ctx, "sockets")
+    from .c10 import rule_shutdown        # "runs no cache timeout after unload" rests on RequestCache.shutdown's ordering
+    rule_shutdown(ctx)
     rule_tracked(ctx)
     rule_taskmanager(ctx)
     ctx.assume("asyncio: a cancelled task does not run further; cancelling a task that awaits another future cancels that future")
